@@ -451,6 +451,53 @@ fn interval_edge_parts(l: L, r1: u128, r2: u128) -> Option<(Big, u32, u128)> {
     Some((n_digits, k, l.wrap(&x)))
 }
 
+/// A value chosen through the *running remainder of its decimal expansion*: after m fraction digits the remainder
+/// frac(x * 10^m) is a chosen bit pattern (limb patterns: a low limb of all ones under a high limb of 0x33.., 0xe6.., 0xcc..,
+/// all ones, ...; a hair above zero; a hair below one). Any digit generator that carries state from digit to digit in
+/// machine words (multiply-by-10, by 100, by 10^k per step) has exactly this remainder as its state after m digits,
+/// whatever m is — also far beyond the digits a shortest round-trip output needs. Uniform values put the state on a
+/// chosen 64-bit pattern with probability 2^-64. Solved: with y the f fraction bits, frac(x 10^m) 2^f = 2^m (y 5^m mod
+/// 2^(f-m)), so y = s (5^m)^-1 (mod 2^(f-m)) for a remainder 2^m s, and the top m bits of y are free.
+/// Returns (raw value, m, the remainder as an f-bit integer).
+fn digit_remainder_value(l: L, r1: u128, r2: u128) -> Option<(u128, u32, u128)> {
+    if l.f < 4 {
+        return None;
+    }
+    let f = l.f;
+    let d = (f as usize * 30103 / 100000) as u32 + 1;
+    // the digit position: around the shortest-output length and beyond it, or anywhere
+    let m = match r1 % 4 {
+        0 => 1 + (r1 >> 8) as u32 % (f - 1),
+        1 => (d + (r1 >> 8) as u32 % 8).min(f - 1),
+        _ => (d.saturating_sub(2) + (r1 >> 8) as u32 % (f - d.min(f - 1)).max(1)).clamp(1, f - 1),
+    };
+    let k = f - m; // bits of s
+    const HI: [u64; 8] = [0x3333_3333_3333_3333, 0xe666_6666_6666_6666, 0xcccc_cccc_cccc_cccc, u64::MAX, 0x8000_0000_0000_0000, 0, 0x1999_9999_9999_9999, 0x7fff_ffff_ffff_ffff];
+    const LO: [u64; 6] = [u64::MAX, 0, 0xffff_ffff_0000_0000, 0x8000_0000_0000_0000, 1, 0x0000_0000_ffff_ffff];
+    let hi = if (r2 >> 3) & 7 == 7 { (r2 >> 64) as u64 } else { HI[(r2 & 7) as usize] };
+    let lo = if (r2 >> 9) & 7 == 7 { (r1 >> 64) as u64 } else { LO[((r2 >> 6) % 6) as usize] };
+    // the remainder as an f-bit pattern: top-aligned limbs (the generator's word holds the fraction left-aligned or right-aligned;
+    // both alignments are produced)
+    let pat128 = ((hi as u128) << 64) | lo as u128;
+    let rem_f = if (r2 >> 12) & 1 == 0 || f == 128 { pat128 >> (128 - f) } else { pat128 & (u128::MAX >> (128 - f)) };
+    let s = rem_f >> m; // drops the low m bits: the remainder must be a multiple of 2^m
+    let maskk = if k >= 128 { u128::MAX } else { (1u128 << k) - 1 };
+    let five_m = 5u128.wrapping_pow(m);
+    // inverse of 5^m modulo 2^128 (Newton: x <- x (2 - a x), doubling the correct bits)
+    let mut inv: u128 = 1;
+    for _ in 0..8 {
+        inv = inv.wrapping_mul(2u128.wrapping_sub(five_m.wrapping_mul(inv)));
+    }
+    debug_assert_eq!(five_m.wrapping_mul(inv), 1);
+    let y_low = s.wrapping_mul(inv) & maskk;
+    let t = if m >= 128 { r2 } else { (r2 >> 20) & ((1u128 << m) - 1) };
+    let y = if k >= 128 { y_low } else { y_low | (t << k) };
+    let y = if f == 128 { y } else { y & ((1u128 << f) - 1) };
+    let ip = if l.int_bits() > 0 { ((r1 >> 40) % 50) << f.min(127) } else { 0 };
+    let raw = if f == 128 { y } else { (ip | y) & l.mask() };
+    Some((raw, m, s << m))
+}
+
 fn precision_from(sel: usize, r: u128, l: L) -> Option<usize> {
     match sel % 8 {
         0 | 1 | 2 => None,
@@ -612,16 +659,26 @@ impl Engine for Text {
                     })
                     .boxed()
             }
-            "C09" => (layout_or(stratum), pick(6), ing(), pick(6), any::<u128>(), any::<u128>(), (pick(NCOMBO), pick(8), pick(4)))
+            "C09" => (layout_or(stratum), pick(6), ing(), pick(7), any::<u128>(), any::<u128>(), (pick(NCOMBO), pick(8), pick(4)))
                 .prop_map(|(lay, tr, ia, amode, r1, r2, (combo, psel, wsel))| {
                     let l = L::from_idx(lay as usize);
+                    let mut prec = precision_from(psel, r1 >> 64, l);
                     let a = match amode {
                         0 | 1 => pattern(l, ia),
                         4 => limb_carry_value(l, r1, r2),
                         5 => interval_edge_value(l, r1, r2),
+                        6 => match digit_remainder_value(l, r1, r2) {
+                            Some((x, m, _)) => {
+                                // ask for digits past the chosen position (the state after m digits decides the next ones)
+                                if psel % 8 != 0 {
+                                    prec = Some(m as usize + 1 + (r2 >> 100) as usize % 6);
+                                }
+                                x
+                            }
+                            None => near_short_decimal(l, r1, r2),
+                        },
                         _ => near_short_decimal(l, r1, r2),
                     };
-                    let prec = precision_from(psel, r1 >> 64, l);
                     let width = match wsel {
                         0 => None,
                         1 => Some((r2 >> 64) as usize % 12),
@@ -723,6 +780,11 @@ impl Engine for Text {
             "C10" => vec!["input-too-short", "input-longer", "w128"],
             _ => vec![],
         }
+    }
+    fn echo(&self, _prop: &str, c: &Case) -> Option<Case> {
+        let mut s = c.clone();
+        s.lay = vcore::run::same_width_layout(c.lay, c.a as u64 ^ (c.b as u64).rotate_left(17) ^ c.s.len() as u64);
+        if s.lay == c.lay { None } else { Some(s) }
     }
     fn eval(&self, prop: &str, c: &Case, chk: bool, kf: &Kf) -> Eval {
         let mut ev = Eval::default();
@@ -839,6 +901,19 @@ impl Engine for Text {
                         let want = ref_pad(t, spec, prefix);
                         if flags != Out::S(want.clone()) {
                             fail(&mut ev, "flags", &flags, format!("{:?} (= {} applied to the no-flag output {:?})", want, spec.describe(), t));
+                        }
+                        if tr == 1 {
+                            // Debug reached through `{:x?}` / `{:X?}`: the same decimal text, padded by the sign / `#` / `0`
+                            // flags, width and precision of the specification
+                            let s8 = Spec { combo: spec.combo % 8, ..spec };
+                            let want = ref_pad(t, s8, prefix);
+                            for lab in ["debug_x?", "debug_X?"] {
+                                let got = get(lab);
+                                if got != Out::S(want.clone()) {
+                                    fail(&mut ev, lab, &got, format!("{:?} (Debug prints the decimal expansion whatever the conversion; {} with {} applied to {:?})", want, lab, s8.describe(), t));
+                                }
+                            }
+                            ev.class("debug-hex-conversion({:x?},{:X?})");
                         }
                         if tr <= 1 && spec.prec.is_none() {
                             let rt = get("roundtrip");
@@ -984,6 +1059,22 @@ impl Engine for Text {
         exec(c)
     }
     fn selftest(&self) -> Result<u64, String> {
+        // the digit-remainder solve: frac(x 10^m) is the chosen pattern
+        let mut z = 0x9e37_79b9_7f4a_7c15_f39c_c060_5ced_c835u128;
+        for name in ["U0F128", "I16F112", "U28F100", "I64F64", "U3F61", "I9F23", "U0F8", "I1F127"] {
+            let l = L::parse(name).unwrap();
+            for _ in 0..40 {
+                z = z.wrapping_mul(0x2360_ed05_1fc6_5da4_4385_df64_9fcc_f645).wrapping_add(0x1405_7b7e_f767_814f);
+                let (r1, r2) = (z, z.rotate_left(61) ^ 0x5555_aaaa);
+                if let Some((raw, m, rem)) = digit_remainder_value(l, r1, r2) {
+                    let y = Big::from_u128(if l.f == 128 { raw } else { raw & ((1u128 << l.f) - 1) });
+                    let got = y.mul(&Big::from_u64(10).pow(m)).rem_trunc(&Big::pow2(l.f));
+                    if got != Big::from_u128(rem) {
+                        return Err(format!("digit_remainder_value: {} m={} remainder {} != chosen {:#x}", name, m, got.to_digits(16), rem));
+                    }
+                }
+            }
+        }
         // tokeniser / rounding on hand-written vectors
         let l = L::parse("U4F4").unwrap();
         let t = |s: &str, radix: u32| -> Option<i128> {
@@ -1041,5 +1132,5 @@ impl Engine for Text {
 }
 
 pub fn main_entry() {
-    std::process::exit(vcore::run::main_with(&Text, lay::is_chk()));
+    std::process::exit(vcore::run::main_with2(&Text, lay::is_chk(), lay::is_oc()));
 }
